@@ -8,7 +8,7 @@ if ! git diff --quiet; then echo "/repo has uncommitted changes, refusing"; exit
 git apply "$patch" || { echo "patch does not apply"; exit 3; }
 trap 'git -C /repo checkout -- . ' EXIT
 for id in "$@"; do
-  out=$(cd /verif && QXV_EVIDENCE_DIR=/tmp/qxv-mutant-evidence ./run.sh quick "$id" 2>&1); rc=$?
+  out=$(cd ${VERIF_DIR:-/verif} && QXV_EVIDENCE_DIR=/tmp/qxv-mutant-evidence ./run.sh quick "$id" 2>&1); rc=$?
   if [ $rc -eq 1 ] && echo "$out" | grep -q '^VIOLATION'; then echo "$id CAUGHT: $(echo "$out" | grep -m1 'violation in stage' | cut -c1-300)";
   elif [ $rc -eq 0 ]; then echo "$id MISSED";
   else echo "$id rc=$rc: $(echo "$out" | tail -3)"; fi
